@@ -81,7 +81,7 @@ def rand_tensor(g, shape, mode):
 
 
 def correspondence(ctx):
-    drv = Driver()
+    drv = Driver("C16")
     pend = []
     maxvars, maxval = (3, 4) if ctx.quick else (4, 5)
     # --- index maps, exhaustively
@@ -89,10 +89,10 @@ def correspondence(ctx):
         n = int(np.prod(sh))
         for s in range(n):
             mi = index_util.index_multi_dimensional_from_index_serial(sh, s)
-            i1 = drv.ask("c16", "multi", ilist(sh), s)
+            i1 = drv.ask("multi", ilist(sh), s)
             pend.append(("multi", (sh, s), "ok " + ilist(mi), i1))
             ser = index_util.index_serial_from_index_multi_dimensional(sh, tuple(mi))
-            i2 = drv.ask("c16", "serial", ilist(sh), ilist(mi))
+            i2 = drv.ask("serial", ilist(sh), ilist(mi))
             pend.append(("serial", (sh, list(mi)), f"ok {ser}", i2))
             ctx.case(("idx", tuple(sh), s), nontrivial=len(sh) > 1,
                      sample={"op": "multi/serial", "shape": sh, "serial": s, "multi": list(mi)})
@@ -102,13 +102,13 @@ def correspondence(ctx):
         n = int(np.prod(sh))
         for s in (n, n + 1, 2 * n + 1):
             mi = index_util.index_multi_dimensional_from_index_serial(sh, s)
-            pend.append(("multi", (sh, s), "ok " + ilist(mi), drv.ask("c16", "multi", ilist(sh), s)))
+            pend.append(("multi", (sh, s), "ok " + ilist(mi), drv.ask("multi", ilist(sh), s)))
         try:
             index_util.index_serial_from_index_multi_dimensional(sh, tuple([0] * (len(sh) + 1)))
             r = "ok"
         except ValueError:
             r = "err lenMismatch"
-        pend.append(("serial", (sh, "len+1"), r, drv.ask("c16", "serial", ilist(sh), ilist([0] * (len(sh) + 1)))))
+        pend.append(("serial", (sh, "len+1"), r, drv.ask("serial", ilist(sh), ilist([0] * (len(sh) + 1)))))
         ctx.count("index error/wrap cases")
     # --- distributions
     g = ctx.npgen(1)
@@ -122,14 +122,14 @@ def correspondence(ctx):
         eff = eps if eps else 1e-8
         ctx.count(f"dist mode={mode}")
         a = dist_repr(lambda: MultinomialDistribution(p.copy(), tuple(sh), eps_zero=eps))
-        pend.append(("ctor", (sh, p.tolist(), eps), a, drv.ask("c16", "ctor", qlist(p), ilist(sh), q(eff))))
+        pend.append(("ctor", (sh, p.tolist(), eps), a, drv.ask("ctor", qlist(p), ilist(sh), q(eff))))
         ctx.case(("ctor", tuple(sh), tuple(p), eps), nontrivial=mode != "plain")
         k = len(sh)
         subsets = [list(c) for r in range(1, k + 1) for c in itertools.permutations(range(k), r)]
         for rem in subsets:
             a = dist_repr(lambda: MultinomialDistribution(p.copy(), tuple(sh), eps_zero=eps).marginalize(rem))
             pend.append(("marg", (sh, p.tolist(), eps, rem), a,
-                         drv.ask("c16", "marg", qlist(p), ilist(sh), q(eff), ilist(rem))))
+                         drv.ask("marg", qlist(p), ilist(sh), q(eff), ilist(rem))))
             ctx.case(("marg", tuple(sh), tuple(p), tuple(rem)), nontrivial=len(rem) < k,
                      sample={"op": "marginalize", "shape": sh, "remain": rem})
         for r in range(1, k):
@@ -138,7 +138,7 @@ def correspondence(ctx):
                     a = dist_repr(lambda: MultinomialDistribution(p.copy(), tuple(sh), eps_zero=eps)
                                   .conditionalize(list(idxs), list(vals)))
                     pend.append(("cond", (sh, p.tolist(), eps, idxs, vals), a,
-                                 drv.ask("c16", "cond", qlist(p), ilist(sh), q(eff), ilist(idxs), ilist(vals))))
+                                 drv.ask("cond", qlist(p), ilist(sh), q(eff), ilist(idxs), ilist(vals))))
                     ctx.case(("cond", tuple(sh), tuple(p), idxs, vals),
                              sample={"op": "conditionalize", "shape": sh, "idx": list(idxs), "val": list(vals)})
     # error branches
@@ -160,7 +160,7 @@ def correspondence(ctx):
     for name, fn, req in bad:
         with np.errstate(all="ignore"):
             a = dist_repr(fn)
-        pend.append((req[0], name, a, drv.ask("c16", *req)))
+        pend.append((req[0], name, a, drv.ask(*req)))
         ctx.count("dist error branches")
         ctx.case(("bad", name))
     out = drv.run()
